@@ -77,6 +77,42 @@ func condFactsD(cond ssa.Value, truth bool, depth int) []Fact {
 				return append([]Fact{{Kind: k, V: cond}}, condFactsD(rets[0].Results[0], truth, depth+1)...)
 			}
 		}
+	case *ssa.Phi:
+		// materialised && / ||: phi [false, rhs] being true means the rhs block was entered
+		// (lhs true) and rhs is true; phi [true, rhs] being false symmetrically.
+		if isBoolT(c.Type()) && depth < 6 {
+			var src ssa.Value
+			var pred *ssa.BasicBlock
+			n := 0
+			for i, e := range c.Edges {
+				if k, ok := e.(*ssa.Const); ok && k.Value != nil && k.Value.Kind() == constant.Bool && constant.BoolVal(k.Value) != truth {
+					continue // this operand cannot produce the observed truth value
+				}
+				n++
+				src, pred = e, c.Block().Preds[i]
+			}
+			k := FTrue
+			if !truth {
+				k = FFalse
+			}
+			out := []Fact{{Kind: k, V: cond}}
+			if n == 1 {
+				if _, isC := src.(*ssa.Const); !isC {
+					out = append(out, condFactsD(src, truth, depth+1)...)
+				}
+				if len(pred.Preds) == 1 {
+					q := pred.Preds[0]
+					for si, sb := range q.Succs {
+						if sb == pred && len(q.Instrs) > 0 {
+							if iff, ok := q.Instrs[len(q.Instrs)-1].(*ssa.If); ok && q.Succs[0] != q.Succs[1] {
+								out = append(out, condFactsD(iff.Cond, si == 0, depth+1)...)
+							}
+						}
+					}
+				}
+			}
+			return out
+		}
 	case *ssa.UnOp:
 		if c.Op == token.NOT {
 			return condFactsD(c.X, !truth, depth)
